@@ -8,8 +8,11 @@ For every generated call the harness
   * writes the call as Coq terms: CSelF (IEEE floats, compared bit for bit) and CSelQ (exact
     rationals; selection compared when the float computation is provably exact).
 """
+import glob
 import itertools
+import json
 import math
+import os
 from fractions import Fraction
 
 from vlib import cz, czl, cnat, cnatl, cbool, clist, copt, cq, cfloat, guarded
@@ -173,7 +176,9 @@ def main(run):
     run.rule = ("exhaustive: all populations (as sequences) of 1..3 points (thorough: multisets of 4 as well) over the grid {0,1,2}^2 "
                 "and {0,1}^3, all min/max sign vectors, every k in 0..n+2, both sorting back-ends; random: n in 1..30, 2-4 objectives, "
                 "random weight signs and magnitudes, value families: tie-heavy integer grids, dyadic, power-of-two grids (float arithmetic exact), "
-                "random doubles, per-objective-distinct permutations, injected duplicates, k in 0..n+2; direct assignCrowdingDist calls on lists "
+                "random doubles, per-objective-distinct permutations, objectives on large offsets (1e3..1e9, both signs) with spreads 1e-3..1 or on "
+                "1e-9 scales around 0 (single fronts of 4..8 with every k, and multi-front populations), injected duplicates, k in 0..n+2; "
+                "corpus/C05*.json first; direct assignCrowdingDist calls on lists "
                 "of 0..10 individuals. A case is distinct by (weights, values, k, back-end); non-trivial = the last front is cut strictly inside "
                 "or crowding distances contain a finite non-zero value.")
     run.trusted += [
@@ -219,6 +224,7 @@ def main(run):
         return [[maps[i][ind.fitness.wvalues[i]] for i in range(nobj)] for ind in pop]
 
     terms, cases = [], []
+    all_k_nd_later = []
     stats = {"sel_calls": 0, "exact_q": 0, "cut_inside": 0, "formula_checked_fronts": 0, "crowd_calls": 0,
              "log_calls": 0, "k_gt_n": 0, "with_duplicates": 0}
 
@@ -307,7 +313,7 @@ def main(run):
             exp = formula_crowding(fv)
             for j, e in zip(members, exp):
                 o = cd[j]
-                ok = (o is not None) and ((o == INF) if e == INF else (o != INF and o == o and abs(Fraction(o) - e) <= Fraction(1, 10 ** 12) * max(1, e)))
+                ok = (o is not None) and ((o == INF) if e == INF else (math.isfinite(o) and abs(Fraction(o) - e) <= Fraction(1, 10 ** 12) * max(1, e)))
                 if not ok:
                     run.oracle_violation("crowding distance differs from the formula (inf at extremes, else sum of neighbour gaps / (nobj*range))",
                                          case, observed={"uid": j, "got": repr(o), "expected": str(e)})
@@ -335,7 +341,8 @@ def main(run):
         img = rank_image(pop)
         fu = clist([cnatl(f) for f in fronts_uid])
         popf = clist(["(%s, %s)" % (czl(img[j]), cfl(obs_vals[j])) for j in range(n)])
-        add("CSelF %s %s %s %s %s" % (cnat(k), popf, fu, cnatl(sel_uid), clist([copt(x, cfloat) for x in cd])), case)
+        add("CSelF %s %s %s %s %s %s" % (cbool(nd == "standard"), cnat(k), popf, fu, cnatl(sel_uid),
+                                         clist([copt(x, cfloat) for x in cd])), case)
         exact = all(float_exact_ok([obs_vals[j] for j in f if j < n]) for f in fronts_uid)
         stats["exact_q"] += exact
         popq = clist(["(%s, %s)" % (czl(img[j]), cql(obs_vals[j])) for j in range(n)])
@@ -363,7 +370,7 @@ def main(run):
         if pop and distinct_per_objective(obs_vals):
             exp = formula_crowding(obs_vals)
             for j, (o, e) in enumerate(zip(cd, exp)):
-                ok = (o == INF) if e == INF else (o != INF and o == o and abs(Fraction(o) - e) <= Fraction(1, 10 ** 12) * max(1, e))
+                ok = (o == INF) if e == INF else (math.isfinite(o) and abs(Fraction(o) - e) <= Fraction(1, 10 ** 12) * max(1, e))
                 if not ok:
                     run.oracle_violation("crowding distance differs from the formula (inf at extremes, else sum of neighbour gaps / (nobj*range))",
                                          case, observed={"index": j, "got": repr(o), "expected": str(e)})
@@ -374,11 +381,66 @@ def main(run):
         add("CCrowdQ %s %s %s" % (cbool(exact), clist([cql(v) for v in obs_vals]), clist([cqinf(x) for x in cd])), case)
 
     # ------------------------------------------------------------------------
+    # corpus: past misses, run first (every k, both back-ends)
+    import vlib
+    for path in sorted(glob.glob(os.path.join(vlib.VERIF, "corpus", "C05*.json"))):
+        for c in json.load(open(path)).get("cases", []):
+            for k in range(0, len(c["values"]) + 3):
+                for nd in ("standard", "log"):
+                    sel_case(c["weights"], c["values"], k, nd)
+            crowd_case(c["weights"], c["values"])
+            stats["corpus_cases"] = stats.get("corpus_cases", 0) + 1
+
+    # ------------------------------------------------------------------------
+    # objectives on a large offset relative to their spread (or on a tiny scale around 0): a single front of
+    # 4..8 individuals with pairwise distinct values, every k, both back-ends.  Catches tolerance-based range
+    # tests / cancellation-sensitive rewrites of the crowding computation.
+    def offset_column(n):
+        kind = rng.choice(["big", "big", "big", "tiny", "plain"])
+        if kind == "big":
+            off = rng.choice([1, -1]) * rng.choice([1e3, 1e4, 1e5, 1e6, 1e7, 1e8, 1e9, 12345.678, 2.0 ** 30])
+            spread = rng.choice([1e-3, 1e-2, 0.1, 0.5, 1.0])
+        elif kind == "tiny":
+            off, spread = 0.0, rng.choice([1e-9, 1e-10, 3e-9])
+        else:
+            off, spread = rng.choice([0.0, 1.0, -5.0]), rng.choice([1.0, 10.0, 100.0])
+        us = sorted(rng.sample(range(0, 1001), n))
+        return [off + spread * (u / 1000.0) for u in us]
+
+    def offset_front(n, nobj):
+        w = [rng.choice([1, -1]) * rng.choice([1, 1, 2, 0.5]) for _ in range(nobj)]
+        cols = [offset_column(n) for _ in range(nobj)]
+        # weighted objective 0 ascending, weighted objective 1 descending: all mutually non-dominated
+        if w[0] < 0:
+            cols[0].reverse()
+        if w[1] > 0:
+            cols[1].reverse()
+        for i in range(2, nobj):
+            rng.shuffle(cols[i])
+        vals = [[cols[i][j] for i in range(nobj)] for j in range(n)]
+        rng.shuffle(vals)
+        return w, vals
+
+    n_off = 0
+    while n_off < run.scale(36, 400):
+        n = rng.randint(4, 8)
+        nobj = rng.choice([2, 2, 3, 4])
+        w, vals = offset_front(n, nobj)
+        if not distinct_per_objective([tuple(float(x) for x in v) for v in vals]):
+            continue
+        n_off += 1
+        all_k_nd_later.append((w, vals))
+
+    # ------------------------------------------------------------------------
     # exhaustive small scopes
     def all_k_nd(w, vals):
         for k in range(0, len(vals) + 3):
             for nd in ("standard", "log"):
                 sel_case(w, vals, k, nd)
+
+    for w_, vals_ in all_k_nd_later:
+        all_k_nd(w_, vals_)
+    stats["offset_fronts"] = len(all_k_nd_later)
 
     grid2 = list(itertools.product([0, 1, 2], repeat=2))
     grid3 = list(itertools.product([0, 1], repeat=3))
@@ -415,7 +477,7 @@ def main(run):
         return [rng.choice([1, -1]) * rng.choice([1, 1, 1, 2, 0.5, 3, 0.1]) for _ in range(nobj)]
 
     def rand_values(n, nobj):
-        fam = rng.choice(["grid", "grid", "dyadic", "pow2", "pow2", "double", "perm", "perm", "anti"])
+        fam = rng.choice(["grid", "grid", "dyadic", "pow2", "pow2", "double", "perm", "perm", "anti", "offset"])
         if fam == "anti" and nobj < 2:
             fam = "perm"
         if fam == "grid":
@@ -429,6 +491,14 @@ def main(run):
         elif fam == "double":
             sc = rng.choice([1.0, 10.0, 1e-3, 1e6])
             vals = [[rng.random() * sc for _ in range(nobj)] for _ in range(n)]
+        elif fam == "offset":
+            # multi-front populations whose objectives sit on large offsets / tiny scales
+            cols = []
+            for _ in range(nobj):
+                c = offset_column(n) if n <= 1001 else [float(x) for x in range(n)]
+                rng.shuffle(c)
+                cols.append(c)
+            vals = [[cols[i][j] for i in range(nobj)] for j in range(n)]
         elif fam == "perm":
             # pairwise distinct per objective; a few fronts
             cols = []
